@@ -18,7 +18,8 @@ fn mask_of(set: &BDDSet, bits: usize) -> u64 {
 }
 
 #[derive(Clone, Copy)]
-enum Op { Ins(usize, usize), Uni(usize, usize), Int(usize, usize), Cmp(usize, usize), Emp(usize), Unv(usize), Has(usize, usize) }
+enum Op { Ins(usize, usize), Uni(usize, usize), Int(usize, usize), Cmp(usize, usize), Emp(usize), Unv(usize), Has(usize, usize),
+          New, FromElem(usize), Clone(usize), FromBdd(usize), Eq(usize, usize) }
 
 fn show_op(op: &Op) -> String {
     match op {
@@ -29,6 +30,10 @@ fn show_op(op: &Op) -> String {
         Op::Emp(i) => format!("emp {}", i),
         Op::Unv(i) => format!("unv {}", i),
         Op::Has(i, e) => format!("has {} {}", i, e),
+        Op::New => "new".to_string(),
+        Op::FromElem(e) => format!("fe {}", e),
+        Op::Clone(i) | Op::FromBdd(i) => format!("cl {}", i),
+        Op::Eq(i, j) => format!("eq {} {}", i, j),
     }
 }
 
@@ -45,11 +50,28 @@ fn all_ops(nsets: usize, bits: usize) -> Vec<Op> {
 
 fn run_seq(ops: &[Op], nsets: usize, bits: usize) -> String {
     let env = Rc::new(BDDEnv::new());
-    let sets: Vec<BDDSet> = (0..nsets).map(|_| BDDSet::with_env(bits, &env)).collect();
+    let mut sets: Vec<BDDSet> = (0..nsets).map(|_| BDDSet::with_env(bits, &env)).collect();
     let mut obs: Vec<String> = Vec::new();
     for op in ops {
+        // constructors add an object
+        let made: Option<Result<BDDSet, ()>> = match *op {
+            Op::New => Some(guarded(AssertUnwindSafe(|| BDDSet::with_env(bits, &env))).map_err(|_| ())),
+            Op::FromElem(e) => Some(guarded(AssertUnwindSafe(|| BDDSet::from_element(e, bits, &env))).map_err(|_| ())),
+            Op::Clone(i) => Some(guarded(AssertUnwindSafe(|| sets[i].clone())).map_err(|_| ())),
+            Op::FromBdd(i) => Some(guarded(AssertUnwindSafe(|| { let b = sets[i].bdd.borrow().clone(); BDDSet::from_bdd(&b, bits, &env) })).map_err(|_| ())),
+            _ => None,
+        };
+        if let Some(m) = made {
+            match m {
+                Err(()) => { obs.push("PANIC".to_string()); break; }
+                Ok(s) => { sets.push(s); obs.push(sets.iter().map(|s| mask_of(s, bits).to_string()).collect::<Vec<_>>().join(",")); }
+            }
+            continue;
+        }
         let r = guarded(AssertUnwindSafe(|| -> Option<bool> {
             match *op {
+                Op::Eq(i, j) => Some(sets[i] == sets[j]),
+                Op::New | Op::FromElem(_) | Op::Clone(_) | Op::FromBdd(_) => None,
                 Op::Ins(i, e) => { sets[i].insert(e); None }
                 Op::Uni(i, j) => { sets[i].union(&sets[j]); None }
                 Op::Int(i, j) => { sets[i].intersect(&sets[j]); None }
@@ -73,7 +95,11 @@ fn run_seq(ops: &[Op], nsets: usize, bits: usize) -> String {
 
 pub fn c19(out: &mut dyn Write, tier: &str, rng: &mut Rng, st: &mut Stats) {
     // every sequence of operations up to depth 3 (thorough: 4) over two 2-bit sets
-    let ops = all_ops(2, 2);
+    let mut ops = all_ops(2, 2);
+    // … and the constructors and the equality test on the two objects
+    ops.push(Op::New);
+    for e in 0..4 { ops.push(Op::FromElem(e)); }
+    ops.extend([Op::Clone(0), Op::Clone(1), Op::FromBdd(1), Op::Eq(0, 1), Op::Eq(1, 0), Op::Eq(0, 0)]);
     let depth = if tier == "thorough" { 4 } else { 3 };
     let n = ops.len();
     let mut idx = vec![0usize; depth];
@@ -95,8 +121,30 @@ pub fn c19(out: &mut dyn Write, tier: &str, rng: &mut Rng, st: &mut Stats) {
     let m = if tier == "thorough" { 20000 } else { 1500 };
     for i in 0..m {
         let (nsets, bits) = match i % 3 { 0 => (2, 4), 1 => (3, 3), _ => (1, 6) };
-        let pool = all_ops(nsets, bits);
-        let seq: Vec<Op> = (0..30).map(|_| *rng.pick(&pool[..])).collect();
+        // the number of objects grows with the constructors; elements are mostly b-bit, sometimes any machine integer
+        let mut cur = nsets;
+        let mut seq: Vec<Op> = Vec::new();
+        for _ in 0..30 {
+            let elem = |rng: &mut Rng| -> usize {
+                let e = rng.below(1 << bits) as usize;
+                match rng.below(12) { 0 => e + (1 << bits) * (1 + rng.below(5) as usize), 1 => usize::MAX - e, _ => e }
+            };
+            let i = rng.below(cur as u64) as usize;
+            let j = rng.below(cur as u64) as usize;
+            let op = match rng.below(16) {
+                0 if cur < 6 => { cur += 1; match rng.below(4) { 0 => Op::New, 1 => Op::FromElem(elem(rng)), 2 => Op::Clone(i), _ => Op::FromBdd(i) } }
+                1 | 2 => Op::Eq(i, j),
+                3..=6 => Op::Ins(i, elem(rng)),
+                7..=9 => Op::Has(i, elem(rng)),
+                10 | 11 => Op::Uni(i, j),
+                12 => Op::Int(i, j),
+                13 => Op::Cmp(i, j),
+                14 => if rng.chance(1, 2) { Op::Emp(i) } else { Op::Unv(i) },
+                _ => Op::Has(i, elem(rng)),
+            };
+            st.hit(match op { Op::New | Op::FromElem(_) | Op::Clone(_) | Op::FromBdd(_) => "op.constructor", Op::Eq(..) => "op.eq", Op::Has(..) => "op.contains", _ => "op.update" });
+            seq.push(op);
+        }
         writeln!(out, "{}", run_seq(&seq, nsets, bits)).unwrap();
         st.hit("random");
     }
